@@ -761,6 +761,12 @@ def poo_hooks():
     def after_init(ctx):
         S.update(ev=0, learners=[], rounds=0)
 
+    def after_pull_poo(ctx, t, pt):
+        # the learner that served this round = the last learner pulled up to the moment pull() returned
+        evs = ctx["algo"]._log["events"]
+        pulls = [e for e in evs[S["ev"]:] if e[0] == "pull"]
+        S["served"] = pulls[-1][1] if pulls else None
+
     def check_grid(ctx, t):
         a, case = ctx["algo"], ctx["case"]
         p = ctx["meta"]["params"]
@@ -794,11 +800,13 @@ def poo_hooks():
         S["rounds"] += 1
         pulls = [e for e in evs if e[0] == "pull"]
         recvs = [e for e in evs if e[0] == "recv"]
-        # queries (get_last_point) also pull a learner; the served learner is the LAST pull before the reward
-        if not pulls or len(recvs) != 1:
+        # recommendation queries also pull a learner (before the round, or between pull and receive_reward);
+        # the learner serving the round is the one recorded when pull() returned
+        served = S.get("served")
+        if served is None or len(recvs) != 1:
             case.fail("C10", "routing", f"round served by {len(pulls)} pull(s), reward delivered {len(recvs)} time(s)", step=t, algo=name); return
-        if recvs[0][1] != pulls[-1][1] or recvs[0][2] != r:
-            case.fail("C10", "routing", f"point proposed by learner {pulls[-1][1]}, reward delivered to learner {recvs[0][1]}", step=t, algo=name)
+        if recvs[0][1] != served or recvs[0][2] != r:
+            case.fail("C10", "routing", f"point proposed by learner {served}, reward delivered to learner {recvs[0][1]}", step=t, algo=name)
         objs = [e["obj"] for e in log["created"]]
         if list(a.V_algo) != objs or objs[:len(S["learners"])] != S["learners"]:
             case.fail("C10", "learners-not-append-only", "the learner list was reordered or a learner was dropped", step=t, algo=name)
@@ -829,7 +837,7 @@ def poo_hooks():
         if owner is None or float(a.V_reward[owner]) != best:
             case.fail("C07", "recommendation-not-best-learner", f"point comes from learner {owner}, scores {list(map(float, a.V_reward))}", step="end", algo=name)
 
-    return {"after_init": after_init, "after_recv": after_recv, "at_end": at_end}
+    return {"after_init": after_init, "after_pull": after_pull_poo, "after_recv": after_recv, "at_end": at_end}
 
 
 def gpo_hooks(name="GPO"):
